@@ -251,11 +251,12 @@ def starved(data, blocking_items, chunks, buffered):
             # of look-ahead at its position); an end-of-input error needs everything.  Position: from the token, else where the
             # previous tag ended (HierarchyError carries none)
             f = it[1].split(":")
-            if f[1] == "eof":
-                err_need = n
+            if f[1] in ("cid", "cdata", "over", "size") and len(f) > 2 and f[2].isdigit():
+                err_need = min(n, int(f[2]) + 16)        # header errors carry the element's position
+            elif f[1] == "hier":
+                err_need = min(n, pos_after + 16)        # HierarchyError carries none: the header after the previous tag
             else:
-                p = int(f[2]) if f[1] in ("cid", "cdata", "over", "size", "id", "data") and len(f) > 2 and f[2].isdigit() else pos_after
-                err_need = min(n, p + 16)
+                err_need = n                             # end of input, payload errors (tagdata: the whole payload is needed), anything else
             break
         if it[0] != "item":
             break
@@ -272,19 +273,15 @@ def starved(data, blocking_items, chunks, buffered):
         batches.append((cur + 1, err_need, err_need >= n))
     else:
         batches.append((cur, n, True))
-    call, queue, bi = 0, 0, 0
-    while call < 4 * n + 100:
+    # each call hands out one queued item; when the queue is empty the call first parses the next batch, which needs `need` bytes delivered
+    call = 0
+    for cnt, need, last in batches:
         dk = delivered(call)
-        if queue == 0:
-            if bi == len(batches):
-                return False
-            cnt, need, last = batches[bi]
-            if (last and dk < n) or need > dk:
-                return True
-            queue += cnt
-            bi += 1
-            if cnt == 0:
-                return False
-        queue -= 1
-        call += 1
+        if (last and dk < n) or need > dk:
+            return True
+        if cnt == 0:
+            return False
+        call += cnt
     return False
+
+
